@@ -277,3 +277,113 @@ def native_logical(name, desc, inputs):
 
 
 NATIVE['logical'] = native_logical
+
+
+# ----------------------------------------------------------------------------- queries and reductions (results are sets, key lists or scalars)
+
+from .core import KeyIter, Tup
+
+QUERIES = {
+    # name: (kind of result, predicate on the dense image a = dense(self)[k] that selects the keys / that the reduction quantifies)
+    'negative_keys':  ('keys', lambda a: a < 0),
+    'negative_index': ('keys', lambda a: a < 0),
+    'positive_index': ('keys', lambda a: a > 0),
+    'nonzero_keys':   ('keys', lambda a: a != 0),
+    'any':            ('exists', lambda a: a != 0),
+    'all':            ('forall', lambda a: a != 0),
+}
+for _name in QUERIES:
+    TABLE.append((_name, ('more', 'query', _name)))
+
+
+def spec_query(name):
+    kind, pred = QUERIES[name]
+
+    def build():
+        p = K.Pre('query')
+        p.vec('self')
+        p.hole = z3.Int('hole!card')          # Skolem witness of the finite-set lemma F2 below
+        return p
+
+    def requires(p, terms):
+        s = p.vecs['self']
+        fs = list(p.facts)
+        for t in terms + [p.hole]:
+            fs.append(p.rep_ok('self', t))
+        return fs
+
+    def lemmas(p, ex, terms):
+        """Finite-set lemmas about card(dom) for a set dom that (by rep_ok, a requires for EVERY key) lies inside range(size):
+        F0  card(dom) <= size;  F1  card(dom) = size and 0 <= t < size  ->  dom[t];  F2  card(dom) < size  ->  some hole in
+        range(size) is not in dom.  Proved once and for all in lemmas/FinsetCard.lean (Lean 4 + Mathlib, checked by setup)."""
+        s = p.vecs['self']
+        c = ex.card(s['dom'])
+        out = [c >= 0, c <= s['size'],
+               z3.Implies(c < s['size'], z3.And(p.hole >= 0, p.hole < s['size'], z3.Not(z3.Select(s['dom'], p.hole))))]
+        for t in terms:
+            out.append(z3.Implies(z3.And(c == s['size'], t >= 0, t < s['size']), z3.Select(s['dom'], t)))
+        return out
+
+    def ensures(p, out, k):
+        s = p.vecs['self']
+        a = dense(s['dom'], s['val'], k)
+        inr = z3.And(k >= 0, k < s['size'])
+        cl = []
+        sdom, sval = out.heap.dicts[s['dict'].oid]
+        cl.append(('frame: self unchanged',
+                   z3.And(z3.Select(sdom, k) == z3.Select(s['dom'], k), z3.Implies(z3.Select(sdom, k), z3.Select(sval, k) == z3.Select(s['val'], k)),
+                          out.heap.objs[s['ref'].oid]['size'] == s['size'])))
+        v = out.value
+        if kind == 'keys':
+            if isinstance(v, Tup) and len(v.items) == 1: v = v.items[0]
+            if isinstance(v, Set): member = z3.Select(out.heap.sets[v.oid], k)
+            elif isinstance(v, KeyIter): member = v.member(k)
+            else: return cl + [('returns a collection of keys', z3.BoolVal(False))]
+            cl.append(('k is among the returned keys exactly when it is in range and the dense image there satisfies the predicate', member == z3.And(inr, pred(a))))
+            return cl
+        if not (z3.is_expr(v) and z3.is_bool(v)):
+            return cl + [('returns a truth value', z3.BoolVal(False))]
+        ex = out.ex if hasattr(out, 'ex') else None
+        w = K.witness(p.ex, s['dom'])
+        aw = dense(s['dom'], s['val'], w); inw = z3.And(w >= 0, w < s['size'])
+        ah = dense(s['dom'], s['val'], p.hole); inh = z3.And(p.hole >= 0, p.hole < s['size'])
+        if kind == 'exists':
+            cl.append(('an index in range whose dense value satisfies the predicate makes the result True', z3.Implies(z3.And(inr, pred(a)), v)))
+            cl.append(('a True result is witnessed by an index in range', z3.Implies(v, z3.Or(z3.And(inw, pred(aw)), z3.And(inh, pred(ah))))))
+        else:
+            cl.append(('a True result means every index in range satisfies the predicate', z3.Implies(z3.And(v, inr), pred(a))))
+            cl.append(('a False result is witnessed by an index in range that violates the predicate', z3.Implies(z3.Not(v), z3.Or(z3.And(inw, z3.Not(pred(aw))), z3.And(inh, z3.Not(pred(ah)))))))
+        return cl
+
+    return dict(build=build, requires=requires, raises_allowed=lambda p: {}, ensures=ensures, needs_cover=False, lemmas=lemmas)
+
+
+SPECS['query'] = spec_query
+
+
+def native_query(name, desc, inputs):
+    import numpy as np, sys
+    sp = sys.modules['thermosteam.base.sparse']
+    s = inputs['self']
+    a = sp.SparseVector.from_dict({int(k): v for k, v in s['dct'].items()}, s['size'])
+    a0 = a.to_array().copy()
+    try:
+        r = getattr(a, name)()
+    except Exception as e:
+        return [f'unexpected {type(e).__name__}: {e}']
+    failed = []
+    if not np.array_equal(a.to_array(), a0): failed.append('frame: self unchanged')
+    kind, _ = QUERIES[name]
+    npred = {'negative_keys': a0 < 0, 'negative_index': a0 < 0, 'positive_index': a0 > 0, 'nonzero_keys': a0 != 0}
+    if kind == 'keys':
+        got = r[0] if isinstance(r, tuple) else r
+        if sorted(int(i) for i in got) != [int(i) for i in np.flatnonzero(npred[name])]:
+            failed.append('k is among the returned keys exactly when it is in range and the dense image there satisfies the predicate')
+    elif name == 'any':
+        if bool(r) != bool(a0.any()): failed.append('any = numpy.any of the dense image')
+    elif name == 'all':
+        if bool(r) != bool(a0.all()): failed.append('all = numpy.all of the dense image')
+    return failed
+
+
+NATIVE['query'] = native_query
